@@ -65,6 +65,10 @@ func c20Cfg(target string) lab.Cfg {
 		return lab.Cfg{V1: true}
 	case "stream-opts":
 		return lab.Cfg{V1: true, AllowDup: true, StoreID: true, WholeCID: true}
+	case "stream-writerat-default":
+		// a stream that happens to be an io.WriterAt (os.Stdout is an *os.File), default options:
+		// the stream constructor's CARv1 default applies all the same
+		return lab.Cfg{V1: true}
 	case "stream-writerat-v2":
 		// a "stream" that is also an io.WriterAt, with an explicit WriteAsCarV1(false): a CARv2 is written
 		return lab.Cfg{IndexPad: 2}
@@ -120,6 +124,9 @@ func c20RunHistory(t *mon.T, target string, hist []string, dir string) {
 		wat = iofault.New(nil)
 		opts = append(opts, carv2.WriteAsCarV1(false))
 		w = deferred.NewDeferredCarWriterForStream(wat, roots, opts...)
+	} else if target == "stream-writerat-default" {
+		wat = iofault.New(nil)
+		w = deferred.NewDeferredCarWriterForStream(wat, roots) // no option at all
 	} else if isStream {
 		dopts.V1 = false
 		w = deferred.NewDeferredCarWriterForStream(stream, roots, dopts.Opts()...)
@@ -331,7 +338,7 @@ func runC20(t *mon.T, raw json.RawMessage) {
 }
 
 func genC20(g *mon.G) {
-	targets := []string{"path-v1", "path-v2", "path-v2-opts", "stream", "stream-opts", "stream-writerat-v2", "stream-failing"}
+	targets := []string{"path-v1", "path-v2", "path-v2-opts", "stream", "stream-opts", "stream-writerat-v2", "stream-failing", "stream-writerat-default"}
 	depth := g.Pick(3, 5) // histories up to length 1+depth
 	for _, tg := range targets {
 		for _, op := range c20Ops {
@@ -348,7 +355,7 @@ func init() {
 	Register(&mon.Check{
 		ID:          "C20",
 		Level:       "exploration",
-		Rule:        "EXHAUSTIVE: all op strings of length ≤ 4 (quick) / ≤ 6 (thorough) over {OnPut(once), OnPut(always), Has(k1), Has(k2), Put(k1), Put(k2), Put(identity), Close} x 7 targets (path CARv1, path CARv2, path CARv2 with paddings/codec/identity options, stream, stream with options, a stream that is an io.WriterAt with WriteAsCarV1(false), a stream that breaks after 20/59/70/110 bytes: callbacks still once per Put, and after the first Close, whatever it returned, every call reports closed), plus random strings of length 5-30; after EVERY step: no write on the stream / no file before the first Put, then output bytes equal to a directly constructed storage.NewWritable fed the same puts, callback log equal to the model's (registration order, once-callbacks exactly once), closed-error after Close. A case = all strings sharing a first op; counters.histories counts individual strings",
+		Rule:        "EXHAUSTIVE: all op strings of length ≤ 4 (quick) / ≤ 6 (thorough) over {OnPut(once), OnPut(always), Has(k1), Has(k2), Put(k1), Put(k2), Put(identity), Close} x 8 targets (a stream that is an io.WriterAt with default options, path CARv1, path CARv2, path CARv2 with paddings/codec/identity options, stream, stream with options, a stream that is an io.WriterAt with WriteAsCarV1(false), a stream that breaks after 20/59/70/110 bytes: callbacks still once per Put, and after the first Close, whatever it returned, every call reports closed), plus random strings of length 5-30; after EVERY step: no write on the stream / no file before the first Put, then output bytes equal to a directly constructed storage.NewWritable fed the same puts, callback log equal to the model's (registration order, once-callbacks exactly once), closed-error after Close. A case = all strings sharing a first op; counters.histories counts individual strings",
 		Assumptions: []string{"the direct writer itself is judged by C01/C05; here only equality with it", "callbacks are registered from the same goroutine (OnPut is registration, not a concurrent operation)"},
 		Gen:         genC20,
 		Run:         runC20,
